@@ -34,7 +34,7 @@ IMPLS = ["merge_sort", "read", "chunked", "rows-df", "rows-dicts", "rows-records
 def budget(tier):
     if tier == "quick":
         return {"examples": 4800, "shards": 16, "time_s": 60}
-    return {"examples": 32000, "shards": 16, "time_s": 900}
+    return {"examples": 160000, "shards": 16, "time_s": 1500}
 
 
 @st.composite
